@@ -78,6 +78,23 @@ def parseEP : String → Except String EntryPoint
 
 def bytesJ (bs : List Nat) : Json := Json.str (String.ofList (bs.map Char.ofNat))
 
+def parseKind : String → Except String BaseKind
+  | "str" => pure BaseKind.str | "pathlike" => pure BaseKind.pathlike | "bytes" => pure BaseKind.bytes
+  | k => throw s!"base kind {k}"
+
+/-- canonical observation of one call: result, verdict of the check (if it ran), inode opened -/
+def callJ (res : ReadResult) (events : List Ev) : Json :=
+  let v := match events with
+    | Ev.check v :: _ => verdictJ v
+    | _ => Json.null
+  let opened : Json := match events with
+    | [_, Ev.openEv _ (some i)] => toJson i
+    | [_, Ev.openEv _ none] => Json.str "fail"
+    | _ => Json.null
+  match res with
+  | ReadResult.raised => obj [("r", "raised"), ("v", v), ("opened", opened), ("nev", toJson events.length)]
+  | ReadResult.ok bs => obj [("r", "ok"), ("v", v), ("opened", opened), ("bytes", bytesJ bs), ("nev", toJson events.length)]
+
 def handle : Handler := fun m j =>
   match m with
   | "path.normpath" => some do return obj [("r", sJ (normpath (← gs j "p")))]
@@ -108,17 +125,68 @@ def handle : Handler := fun m j =>
         let loc := (← a[1]!.getStr?).toList
         let ep ← parseEP (← a[4]!.getStr?)
         let r := read fs kfuel fuel cwdS (comps cwdS) base loc (← a[2]!.getNat?) (← a[3]!.getNat?) ep
-        let v := match r.2 with
-          | Ev.check v :: _ => verdictJ v
-          | _ => Json.null
-        let opened : Json := match r.2 with
-          | [_, Ev.openEv _ (some i)] => toJson i
-          | [_, Ev.openEv _ none] => Json.str "fail"
-          | _ => Json.null
-        let res := match r.1 with
-          | ReadResult.raised => obj [("r", "raised"), ("v", v), ("opened", opened)]
-          | ReadResult.ok bs => obj [("r", "ok"), ("v", v), ("opened", opened), ("bytes", bytesJ bs)]
-        out := out.push res
+        out := out.push (callJ r.1 r.2)
+      return obj [("r", Json.arr out)]
+  | "path.readsT" => some do
+      -- like path.reads with a base_dir kind and a zero-size flag: queries [kind, base, loc, offset, length, zero, ep]
+      let fs ← parseFS (← j.getObjVal? "fs")
+      let cwdS ← gs j "cwd"
+      let kfuel ← getNat j "kfuel"
+      let fuel ← getNat j "fuel"
+      let qs ← getArr j "queries"
+      let mut out : Array Json := #[]
+      for q in qs do
+        let a ← q.getArr?
+        if a.size != 7 then throw "query: expected 7 fields"
+        let b : BaseVal := { kind := ← parseKind (← a[0]!.getStr?), s := (← a[1]!.getStr?).toList }
+        let p : TensorP := { loc := (← a[2]!.getStr?).toList, offset := ← a[3]!.getNat?, length := ← a[4]!.getNat?,
+                             zero := ← a[5]!.getBool? }
+        let ep ← parseEP (← a[6]!.getStr?)
+        let r := callT fs kfuel fuel cwdS (comps cwdS) p b ep TState.fresh
+        out := out.push (callJ r.1 r.2.1)
+      return obj [("r", Json.arr out)]
+  | "path.world" => some do
+      -- several tensors [[loc, offset, length, zero], ...] and a history of public operations:
+      --   {"op":"fs","fs":{..}} | {"op":"base","t":n,"kind":..,"base":..} | {"op":"basedir","ts":[..],"kind":..,"base":..}
+      --   | {"op":"release","t":n} | {"op":"call","t":n,"ep":..} | {"op":"load","ts":[..]}
+      let cwdS ← gs j "cwd"
+      let kfuel ← getNat j "kfuel"
+      let fuel ← getNat j "fuel"
+      let mut psL : List TensorP := []
+      for t in (← getArr j "tensors") do
+        let a ← t.getArr?
+        if a.size != 4 then throw "tensor: expected 4 fields"
+        psL := { loc := (← a[0]!.getStr?).toList, offset := ← a[1]!.getNat?, length := ← a[2]!.getNat?,
+                 zero := ← a[3]!.getBool? } :: psL
+      let psA := psL.reverse
+      let ps : Nat → TensorP := fun k => psA.getD k { loc := [], offset := 0, length := 0, zero := false }
+      let natList (x : Json) (k : String) : Except String (List Nat) := do
+        let arr ← getArr x k
+        let mut r : List Nat := []
+        for v in arr do
+          r := (← v.getNat?) :: r
+        return r.reverse
+      let mut opsL : List WOp := []
+      for s in (← getArr j "ops") do
+        let op ← s.getObjValAs? String "op"
+        match op with
+        | "fs" => opsL := WOp.setFS (← parseFS (← s.getObjVal? "fs")) :: opsL
+        | "base" =>
+          opsL := WOp.setBase (← getNat s "t")
+            { kind := ← parseKind (← s.getObjValAs? String "kind"), s := (← s.getObjValAs? String "base").toList } :: opsL
+        | "basedir" =>
+          opsL := WOp.setBaseDir (← natList s "ts")
+            { kind := ← parseKind (← s.getObjValAs? String "kind"), s := (← s.getObjValAs? String "base").toList } :: opsL
+        | "release" => opsL := WOp.release (← getNat s "t") :: opsL
+        | "call" => opsL := WOp.call (← getNat s "t") (← parseEP (← s.getObjValAs? String "ep")) :: opsL
+        | "load" => opsL := WOp.loadToModel (← natList s "ts") :: opsL
+        | _ => throw s!"world op {op}"
+      let w0 : World := { fs := { node := fun _ => none, dnlink := fun _ => 2, nlink := fun _ => 0, data := fun _ => [] },
+                          ts := fun _ => { base := { kind := BaseKind.str, s := [] }, st := TState.fresh }, aborted := false }
+      let log := runWorld kfuel fuel cwdS (comps cwdS) ps w0 opsL.reverse
+      let mut out : Array Json := #[]
+      for e in log do
+        out := out.push ((callJ e.res e.events).setObjVal! "t" (toJson e.t))
       return obj [("r", Json.arr out)]
   | "path.realpaths" => some do
       let fs ← parseFS (← j.getObjVal? "fs")
@@ -178,17 +246,7 @@ def handle : Handler := fun m j =>
       let log := (runSess kfuel fuel cwdS (comps cwdS) loc off len s0 stepsL.reverse).2
       let mut out : Array Json := #[]
       for e in log do
-        let v := match e.events with
-          | Ev.check v :: _ => verdictJ v
-          | _ => Json.null
-        let opened : Json := match e.events with
-          | [_, Ev.openEv _ (some i)] => toJson i
-          | [_, Ev.openEv _ none] => Json.str "fail"
-          | _ => Json.null
-        let res := match e.res with
-          | ReadResult.raised => obj [("r", "raised"), ("v", v), ("opened", opened)]
-          | ReadResult.ok bs => obj [("r", "ok"), ("v", v), ("opened", opened), ("bytes", bytesJ bs)]
-        out := out.push res
+        out := out.push (callJ e.res e.events)
       return obj [("r", Json.arr out)]
   | _ => none
 
